@@ -518,7 +518,7 @@ def _shard(ctx):
         run_hypothesis(ctx, sem_case_st, lambda c: check_sem(ctx, c), ctx.n(16000, 400000), shrink=True, salt="sem")
     ctx.mod.BATCH = 4
     if "L1" in layers:
-        run_hypothesis(ctx, build_case_st(ctx.quick()), lambda c: check_build(ctx, c), ctx.n(320, 5000), shrink=False,
+        run_hypothesis(ctx, build_case_st(ctx.quick()), lambda c: check_build(ctx, c), ctx.n(640, 5000), shrink=False,
                        salt="build", minimize=("edits",))
 
 def replay(ctx, case):
